@@ -203,6 +203,19 @@ func init() {
 					return true
 				})
 				loopsOut[c.Key] = sigs
+				if !c.Emitted {
+					var flat, own []string
+					for i, fl := range w.flatLoops(fi, fi.Decl.Body) {
+						flat = append(flat, fl.sig)
+						if fl.own {
+							own = append(own, fmt.Sprint(i))
+						}
+					}
+					if len(own) == len(sigs) {
+						loopsOut[c.Key+"#flat"] = flat
+						loopsOut[c.Key+"#own"] = own
+					}
+				}
 			}
 			_, list := localOrdinals(fi.Pkg.TypesInfo, fi.Decl.Body)
 			if len(list) == 0 {
@@ -235,4 +248,132 @@ func trimEmitted(k string) string {
 		return k[8:]
 	}
 	return k
+}
+
+// ---------------------------------------------------------------------------------------
+// Loops that move between a unit and the helpers inlined into it. A refactoring that extracts the part of a function
+// containing a loop under invariant into a (contract-less, same-package) helper - or inlines such a helper back - leaves the
+// *flattened* sequence of loops unchanged: the unit's loops in source order with the loops of every contract-less
+// same-package callee spliced in at its first call. That sequence is recorded with the positions of the unit's own loops
+// (spec/loops.json, key "<unit>#flat"); when the unit's own loops no longer match but the flattened sequence does (up to the last loop under invariant), each
+// invariant follows its loop to wherever it now lives. Invariants are proved wherever they are attached, never assumed, so
+// this cannot make a wrong program verify.
+
+type flatLoop struct {
+	node ast.Node
+	sig  string
+	own  bool
+}
+
+func (w *World) flatLoops(fi *FuncInfo, body ast.Node) []flatLoop {
+	var out []flatLoop
+	seen := map[*types.Func]bool{fi.Obj: true}
+	var walk func(f *FuncInfo, b ast.Node, depth int, own bool)
+	walk = func(f *FuncInfo, b ast.Node, depth int, own bool) {
+		info := f.Pkg.TypesInfo
+		ast.Inspect(b, func(n ast.Node) bool {
+			switch x := n.(type) {
+			case *ast.RangeStmt, *ast.ForStmt:
+				out = append(out, flatLoop{n, loopSignature(w.Fset, n), own})
+			case *ast.CallExpr:
+				var callee *types.Func
+				switch fn := unparen(x.Fun).(type) {
+				case *ast.Ident:
+					callee, _ = info.Uses[fn].(*types.Func)
+				case *ast.SelectorExpr:
+					callee, _ = info.Uses[fn.Sel].(*types.Func)
+				}
+				if callee == nil || callee.Pkg() != f.Obj.Pkg() || seen[callee] || depth >= 3 {
+					return true
+				}
+				g := w.Funcs[callee.FullName()]
+				if g == nil || g.Decl == nil || g.Decl.Body == nil || w.contractFor(g) != nil {
+					return true
+				}
+				seen[callee] = true
+				// arguments first (source order), then the callee's body
+				for _, a := range x.Args {
+					walk(f, a, depth, own)
+				}
+				walk(g, g.Decl.Body, depth+1, false)
+				return false
+			}
+			return true
+		})
+	}
+	walk(fi, body, 0, true)
+	return out
+}
+
+// remapMovedLoops: see above. Returns true if invariants were re-attached.
+func (ex *Exec) remapMovedLoops(fi *FuncInfo, body ast.Node) bool {
+	snap := loadLoopsSnapshot()
+	want := snap[ex.funcKey]
+	wantFlat := snap[ex.funcKey+"#flat"]
+	wantOwn := snap[ex.funcKey+"#own"]
+	if len(want) == 0 || len(wantFlat) == 0 || len(wantOwn) != len(want) {
+		return false
+	}
+	// the unit's own loops still as recorded: nothing to do
+	var ownNow []string
+	for _, fl := range ex.w.flatLoops(fi, body) {
+		if fl.own {
+			ownNow = append(ownNow, fl.sig)
+		}
+	}
+	if len(ownNow) == len(want) {
+		same := true
+		for i := range want {
+			if want[i] != ownNow[i] {
+				same = false
+			}
+		}
+		if same {
+			return false
+		}
+	}
+	cur := ex.w.flatLoops(fi, body)
+	if os.Getenv("GOVC_DEBUG_LOOPS") != "" {
+		var cs []string
+		for _, c := range cur {
+			cs = append(cs, c.sig)
+		}
+		fmt.Println("LOOPS", ex.funcKey, "recorded", wantFlat, "current", cs)
+	}
+	// the sequences must agree up to the last loop that carries an invariant (what comes after it may have been
+	// refactored independently)
+	last := -1
+	for _, posText := range wantOwn {
+		var pos int
+		fmt.Sscan(posText, &pos)
+		if pos > last {
+			last = pos
+		}
+	}
+	if last < 0 || last >= len(cur) || last >= len(wantFlat) {
+		return false
+	}
+	for i := 0; i <= last; i++ {
+		if cur[i].sig != wantFlat[i] {
+			return false
+		}
+	}
+	// every loop of the unit proper loses its ordinal, then the recorded own positions get theirs back
+	for n := range ex.loopOrdinals {
+		ex.loopOrdinals[n] = 0
+	}
+	ex.movedLoops = map[ast.Node]bool{}
+	for k, posText := range wantOwn {
+		var pos int
+		fmt.Sscan(posText, &pos)
+		if pos < 0 || pos >= len(cur) {
+			return false
+		}
+		ex.loopOrdinals[cur[pos].node] = k + 1
+		if !cur[pos].own {
+			ex.movedLoops[cur[pos].node] = true
+		}
+	}
+	ex.note("loops of %s moved between the function and its inlined helpers: invariants follow the loops they were written for (spec/loops.json, flattened sequence unchanged)", ex.funcKey)
+	return true
 }
